@@ -109,10 +109,26 @@ for _p in ("C10", "C11"):
 ENGINE_OF["C09"] = "tla-history"
 
 
+# what was added to the coverage after the texts above were written (DESIGN.md section 12 has the history)
+ADDED = {
+ "C01": " Also replayed: the interaction and near-miss corpora (precedence contexts, optional positions such as branch labels, code that begins with a sign, non-expressions offered to expression metavariables).",
+ "C04": " Also replayed: moved elements, context-line elisions between one-sided ones, late-failing candidates over long lists, a change with more than a dozen elisions; load errors of corpus vectors are violations.",
+ "C07": " The library half judges what Apply returns also for '+' sides that cannot be printed.",
+ "C08": " Resource targets through the command under an address-space limit and a 30 s watchdog: //line directives with huge numbers, nesting depth 6..26 with a site on every level, lists of 2000 / 20000 elements, six elisions against 30..120 equal elements.",
+ "C09": " The abstract file holds nested call terms (changes with repeated metavariables and literal arguments; class 'inner': code rewritten inside a compared place); hand-written sequences outside the rule universe are judged against the observed chain of single-change runs.",
+ "C12": " Mode agreement also over files with very long lines, without a final newline, with comments inside one-line rewrites; the dry modes' output for a matching file is judged next to failing files.",
+ "C15": " Arguments also reach their target through a symbolic link to the tree and through redundant absolute spellings; Discover.tla models the key by which files are told apart.",
+ "C16": " Further faults: a patch list that cannot be read (stage `load`), standard output that cannot be written to, runs with 255..768 failing files.",
+ "C17": " Also: expression sites that gain a token which was absent, files without any comment with comments written in the patch, a kept import with comments.",
+ "C18": " Also runs of two and three files with generated files next to each other.",
+}
+
+
 def main():
     checks = []
     for pid in sorted(CHECKS):
-        c = CHECKS[pid]
+        c = dict(CHECKS[pid])
+        c["text"] = c["text"] + ADDED.get(pid, "")
         checks.append({
             "property_id": pid,
             "quick_cmd": "./check %s quick" % pid,
